@@ -79,7 +79,7 @@ namespace verif::e2 {
     // record; used for high-frequency polling sites whose uninteresting values are stutter)
     inline bool (*g_wanted_extra)(char const*) = nullptr;
     inline bool (*g_drop)(char const* site, void const* obj, std::uint64_t a, std::uint64_t b) = nullptr;
-    // called at POINT sites (outside the log lock): lets a harness widen one specific window deterministically
+    // called at POINT sites and before outermost PRE sites (outside the log lock): lets a harness widen one specific window deterministically
     inline void (*g_on_point)(char const* site, void const* obj, std::uint64_t a, std::uint64_t b) = nullptr;
 
     inline bool wanted(char const* s)
@@ -143,6 +143,7 @@ namespace verif::e2 {
         {
             if (tl_depth == 0)
             {
+                if (g_on_point != nullptr) g_on_point(site, obj, a, b);    // directed delay before an instrumented operation
                 perturb();
                 lock();
                 tl_holding = true;
